@@ -101,10 +101,20 @@ def check(ctx):
     selfp, refp, npar = tm.param("self"), tm.param("traj_ref"), tm.param("n")
     n_atom = None
     base = Interp(prog).run(fa)
+    cands = []
+    for e in base.events:
+        cands.extend(tm.atoms(e.live))
     for e in base.calls(UME):
-        for a in tm.atoms(e.live):
-            if a.op == "cmp" and npar in (a.args[1], a.args[2]):
-                n_atom = a
+        for v in (e.data["bound"] or {}).values():
+            for x in v.walk():
+                if x.op == "ite":
+                    cands.extend(tm.atoms(x.args[0]))
+    for a in cands:
+        if a.op == "cmp" and npar in (a.args[1], a.args[2]) and any(
+                tm.is_const(z) and z.args[1] == -1
+                for z in (a.args[1], a.args[2])):
+            n_atom = a
+            break
     ctx.require(n_atom is not None, "test of n against -1 not found in align "
                 "(unknown idiom)")
     n_all_true = n_atom.args[0] == "Eq"   # atom true means n == -1
